@@ -8,11 +8,16 @@
     has reported after a prefix of its packets is a prefix of what it reports after more packets;
     findings for packets before the cut therefore cannot depend on anything after the cut.
   * `truncated_findings_are_prefix`: combined statement for the model of a check run.
-  Partial (`…_partial`): the case "cut inside a payload" (≥ 64 trailing bytes: the last RDH is still
-  delivered with an empty payload and [E100]/[E101]) is covered by the correspondence check and
-  the oracle over every cut position, not yet by a theorem.
+  * `scan_truncated_in_payload`, `truncated_in_payload_findings_are_prefix`: the cut inside a
+    payload — the complete packets are delivered exactly as in the untruncated input, the
+    truncated packet is delivered last (iff its header matches the filter) with its true offset,
+    its header and an empty payload, and every validator's findings for the complete packets are
+    a prefix of what it reports on the truncated input.
+  Together with `scan_complete_prefix` (cut inside an RDH or at a packet boundary) every cut
+  position of a well-framed input is covered.
 -/
 import FastPasta.Props.C03
+import FastPasta.Proofs.ScanTail
 import FastPasta.Model.Cli
 import FastPasta.Proofs.Link
 namespace FastPasta
@@ -151,6 +156,35 @@ theorem truncated_findings_are_prefix (cfg : CheckCfg) (sc : ScanCfg) (ps qs : L
   | ok dCut =>
     simp only [hcut] at hfull
     exact ⟨dCut, rfl, validator_msgs_grow cfg _ dCut dFull hfull⟩
+
+/-- **C18, cut inside a payload (scanner)**: the complete packets exactly as in the untruncated
+    input, then the truncated packet — iff its header matches the filter — with its true offset,
+    its header and an empty payload; every filter, file and pipe, payloads loaded or skipped -/
+theorem scan_truncated_in_payload (cfg : ScanCfg) (ps : List RawPkt) (hwf : ∀ p ∈ ps, WF p)
+    (q : RawPkt) (n : Nat) (hq : WFH q n) (part : Bytes) (hpart : part.length < n) :
+    (scanAll cfg (bytesOf ps ++ (q.hdr ++ part))).packets =
+      expected cfg 0 ps ++ (if filterMatches cfg.filter q.rdh then [truncPacket (totalSize ps) q] else []) := by
+  have h := scanLoop_tail cfg q n hq part hpart ps.length ps (Nat.le_refl _) hwf
+    { rest := bytesOf ps ++ (q.hdr ++ part) } [] [] rfl
+  unfold scanAll
+  simp only [h]
+  simp
+
+/-- **C18, cut inside a payload (check run)**: what every validator reports for the complete
+    packets alone is a prefix of what it reports on the truncated input, whose only additional
+    packet is the truncated one -/
+theorem truncated_in_payload_findings_are_prefix (cfg : CheckCfg) (sc : ScanCfg) (ps : List RawPkt)
+    (hwf : ∀ p ∈ ps, WF p) (q : RawPkt) (n : Nat) (hq : WFH q n) (part : Bytes) (hpart : part.length < n)
+    (dCut : DispSt) (hcut : runValidators cfg [] (scanAll sc (bytesOf ps ++ (q.hdr ++ part))).packets = .ok dCut) :
+    ∃ dPre, runValidators cfg [] (scanAll sc (bytesOf ps)).packets = .ok dPre ∧
+      ∀ id, ∃ extra, dCut.msgsOf id = dPre.msgsOf id ++ extra := by
+  rw [scan_truncated_in_payload sc ps hwf q n hq part hpart, runValidators_append] at hcut
+  rw [scan_exact sc ps hwf]
+  cases hpre : runValidators cfg [] (expected sc 0 ps) with
+  | error e => simp [hpre] at hcut
+  | ok dPre =>
+    simp only [hpre] at hcut
+    exact ⟨dPre, rfl, validator_msgs_grow cfg _ dPre dCut hcut⟩
 
 end C18
 end FastPasta
